@@ -148,7 +148,7 @@ func init() {
 		runNodeMessage(cr)
 		cr.explanation = "BaseNodeService.ProcessMessage (real fsmservice, repositories, LevelDBState, FSM stack) executed from SSA on one symbolic board message against a store holding the round in each representative reachable state; obligation: not (registered sender and Verify(PubKeys[sender], Data, Signature)) => error and byte-identical store and board (all rounds, operation pool, tombstones, signatures)."
 	}}
-	checkDefs["C18"] = &checkDef{level: "other", pkgs: []string{nodePkg, reqPkg, typesPkg}, run: func(cr *CheckRun) {
+	checkDefs["C18"] = &checkDef{level: "other", pkgs: []string{nodePkg, reqPkg, typesPkg, airPkg}, run: func(cr *CheckRun) {
 		cr.owner = func(l string) bool { return hasPrefixAny(l, "rejected-durable-noop", "nopanic") }
 		cr.groupKey = func(v Violation) string {
 			if strings.HasPrefix(v.Label, "rejected-durable-noop") {
@@ -171,6 +171,24 @@ func init() {
 				Params: map[string]string{"ntasks": fmt.Sprint(nt)}})
 		}
 		tj = append(tj, Job{Pkg: typesPkg, Fn: "VF_C18_OperationHelpers", Opts: defaultOpts(), Tag: "arbitrary operation", Case: "Operation.Filename"})
+		// the airgapped machine: structure-aware mutants of the genuine operation of every step, fed in the state the
+		// ceremony has reached, followed by the genuine operations
+		airKinds := []int{5, 4, 5, 6, 3, 5, 1}
+		for st, name := range []string{"commits", "deals", "responses", "masterkey", "signing", "reinit", "unknown-type"} {
+			for k := 0; k < airKinds[st]; k++ {
+				// kinds whose payload is an opaque byte string decoded into a deep structure (every shape of the decoded value is
+				// a path, and every path re-executes the ceremony prefix): thorough tier only
+				if junkKind := (st == 2 && k == 4) || (st == 3 && k == 5) || (st == 4 && k == 0) || (st == 5 && (k == 1 || k == 4)) || st == 6; junkKind && cr.Tier != "thorough" {
+					continue
+				}
+				tj = append(tj, Job{Pkg: airPkg, Fn: "VF_Air_Arbitrary", Opts: defaultOpts(), Tag: fmt.Sprintf("airgapped mutant operation at step %s, kind %d", name, k), Case: "airgapped:" + name,
+					Params: map[string]string{"step": fmt.Sprint(st), "stepname": name, "kind": fmt.Sprint(k), "arb_len": "1", "tag": fmt.Sprintf("c18air%d_%d", st, k)}})
+			}
+			if st < 4 {
+				tj = append(tj, Job{Pkg: airPkg, Fn: "VF_Air_Arbitrary", Opts: defaultOpts(), Tag: fmt.Sprintf("airgapped mutant operation at step %s for a round the machine never saw", name), Case: "airgapped:" + name,
+					Params: map[string]string{"step": fmt.Sprint(st), "stepname": name, "kind": "2", "otherround": "1", "arb_len": "1", "tag": fmt.Sprintf("c18air%d_o", st)}})
+			}
+		}
 		tr := cr.Pool.Run(tj)
 		cr.absorb(tj, tr)
 		cr.bounds["signing_tasks"] = "1 task (thorough: 1..2), each explicit (payload 0..1 bytes) or a baked range with symbolic int bounds: any range starting outside the list, ranges of length <= 2 starting in the first 64 or last 2 positions"
@@ -393,6 +411,12 @@ func init() {
 			jobs = append(jobs, Job{Pkg: nodePkg, Fn: "VF_C14_Pair", Opts: opts, Tag: "state=" + best[n] + " message=" + want[n] + " api=ProcessOperation(other round)",
 				Case:   "message=" + want[n] + " api=ProcessOperation(other round)",
 				Params: map[string]string{"abs": best[n], "event": want[n], "apiround": "other", "norange": "1", "maxn": "2", "preemptions": pre, "tag": fmt.Sprintf("c14_%d", len(jobs))}})
+			// the operator approves the invitation to another round (ApproveParticipation reads the pool before it answers)
+			if want[n] != "event_signing_start" || cr.Tier == "thorough" {
+				jobs = append(jobs, Job{Pkg: nodePkg, Fn: "VF_C14_Pair", Opts: opts, Tag: "state=" + best[n] + " message=" + want[n] + " api=ApproveParticipation(other round)",
+					Case:   "message=" + want[n] + " api=ApproveParticipation(other round)",
+					Params: map[string]string{"abs": best[n], "event": want[n], "apiround": "other", "api": "approve", "norange": "1", "maxn": "2", "preemptions": pre, "tag": fmt.Sprintf("c14_%d", len(jobs))}})
+			}
 		}
 		res := cr.Pool.Run(jobs)
 		cr.absorb(jobs, res)
@@ -406,8 +430,8 @@ func init() {
 		cr.groupKey = func(v Violation) string { return v.Label + " @ " + v.Case }
 		cr.explanation = "Two logical threads in the executor: the poller side (real ProcessMessage + SaveOffset for one genuinely signed message with symbolic payload) and the API side (real ProcessOperation submitting the result of a pending operation); context switches at every state-store call and board send, all schedules within the pre-emption bound, sync.Mutex with real mutual exclusion between the threads; the final public state must equal one of the two serial orders; no pending operation lost, no retired operation back."
 		cr.bounds["preemptions"] = pre + " (every schedule within the bound, including which side starts)"
-		cr.bounds["pairs"] = "API request ProcessOperation (answering an operation of this round, or of another round of the node) x board message that completes a phase / opens a batch (quick: 3 message kinds, thorough: 7)"
-		cr.bounds["outside"] = "ApproveParticipation, reinit finish and state reset as the API side; races below the granularity of a state-store call (e.g. Reset swapping the DB handle under SaveOffset); more than one message per tick; n > 2"
+		cr.bounds["pairs"] = "API request ProcessOperation (answering an operation of this round, or of another round of the node) or ApproveParticipation (invitation to another round) x board message that completes a phase / opens a batch (quick: 3 message kinds, thorough: 7)"
+		cr.bounds["outside"] = "reinit finish and state reset as the API side; races below the granularity of a state-store call (e.g. Reset swapping the DB handle under SaveOffset); more than one message per tick; n > 2"
 		cr.assume = append(cr.assume, "a context switch can only happen at a state-store call or a board send; sync.Mutex gives mutual exclusion; everything else as in C09")
 		cr.trusted = append(cr.trusted, "gosx SSA->SMT executor with logical threads (engine/sched.go)", "z3 4.8.12")
 	}}
